@@ -147,6 +147,9 @@ func (g *Gen) fillFrame(f *Node, depth, ctx int, static bool) {
 					}
 				}
 			}
+			if !static && ck == lib.CALL && ctx < nBatched && g.r.Chance(8) {
+				mk = []MarkerKind{MkBridgeTok, MkBridgeTokFail}[g.r.Intn(2)]
+			}
 			if g.panicky && !static && g.claimsPanic < 2 && g.r.Chance(30) {
 				mk, ck = MkExecPanic, lib.CALL
 			}
@@ -167,6 +170,10 @@ func (g *Gen) fillFrame(f *Node, depth, ctx int, static bool) {
 			case MkExecIBCClosed:
 				m.Claim = g.w.ibcClosed[g.claimsIBCClosed]
 				g.claimsIBCClosed++
+			case MkBridgeTok:
+				m.Pool = g.r.Intn(2)
+			case MkBridgeTokFail:
+				m.Pool = g.r.Intn(5)
 			case MkFeeGone:
 				m.Pool = g.r.Intn(4) / 3 // mostly the batched transfer, sometimes an id that never existed
 			}
